@@ -745,6 +745,11 @@ func (p *Proc) loopHead(st *State, n ast.Node, body *ast.BlockStmt, extraMod []*
 	return d0
 }
 
+// loopKey identifies a loop of the current frame (inlined frames have their own numbering).
+func (p *Proc) loopKey(ord int) string {
+	return fmt.Sprintf("%s#%d", p.cur().prefix, ord)
+}
+
 // loopAssume applies the loop's assume clauses (unproved facts, listed in the evidence) at the
 // start of an iteration.
 func (p *Proc) loopAssume(st *State, ls loopSpec, pos token.Pos) {
@@ -873,7 +878,7 @@ func (p *Proc) execRange(st *State, x *ast.RangeStmt, label string) flow {
 		// the collection value is evaluated once
 		collT := p.define(st, "rangecoll", coll.T)
 		st.vars[idxObj] = IntLit(0)
-		p.rangeIdx[ls.ord] = idxObj
+		p.rangeIdx[p.loopKey(ls.ord)] = idxObj
 		var extra []*types.Var
 		extra = append(extra, idxObj)
 		d0 := p.loopHead(st, x, x.Body, extra, ls, pos)
@@ -996,7 +1001,7 @@ func (p *Proc) execRangeMap(st *State, x *ast.RangeStmt, label string, m Val, mt
 	_, ks, _ := p.mapKeys(mt)
 	visSort := ArrSort(ks, SBool)
 	visObj := types.NewVar(token.NoPos, f.pkg, fmt.Sprintf("visited%d", ls.ord), types.NewMap(mt.Key(), types.Typ[types.Bool]))
-	p.visited[ls.ord] = visObj
+	p.visited[p.loopKey(ls.ord)] = visObj
 	p.visitedSort[visObj] = visSort
 	mref := p.define(st, "rangemap", m.T)
 	st.vars[visObj] = T(fmt.Sprintf("((as const %s) false)", visSort), visSort)
@@ -1004,7 +1009,7 @@ func (p *Proc) execRangeMap(st *State, x *ast.RangeStmt, label string, m Val, mt
 	// this type, iterations visit distinct keys of an unchanged map: iters <= len(map), with
 	// equality when the range is exhausted
 	itObj := types.NewVar(token.NoPos, f.pkg, fmt.Sprintf("iters%d", ls.ord), types.Typ[types.Int])
-	p.iters[ls.ord] = itObj
+	p.iters[p.loopKey(ls.ord)] = itObj
 	st.vars[itObj] = IntLit(0)
 	mid, _, _ := p.mapKeys(mt)
 	mod := p.modifiedBy(x)
